@@ -466,8 +466,25 @@ func (b *Broker) RemovePipeline(t EventType, id PipelineID) error {
 		return fmt.Errorf("no graph for EventType %s", t)
 	}
 
+	// The nodes of the removed pipeline are no longer in use by it (removing a
+	// pipeline that isn't registered remains a no-op).
+	if nodes, err := g.roots.Nodes(id); err == nil {
+		b.releaseNodes(nodes)
+	}
+
 	g.roots.Delete(id)
 	return nil
+}
+
+// releaseNodes decrements the reference count of nodes which were referenced
+// by a pipeline that is being removed or replaced. The nodes stay registered.
+// This function assumes that the caller holds a lock
+func (b *Broker) releaseNodes(ids []NodeID) {
+	for _, id := range ids {
+		if nodeUsage, ok := b.nodes[id]; ok && nodeUsage.referenceCount > 0 {
+			nodeUsage.referenceCount--
+		}
+	}
 }
 
 // RemovePipelineAndNodes will attempt to remove all nodes referenced by the pipeline.
